@@ -26,7 +26,7 @@ func init() {
 }
 
 // HFixedSpec: String 2, Numeric 3, tagged composite 55 {0a,0b}, nested composite 60
-// {n1{x,y}, p1}, String 66 (second bitmap block). Protocol lines may write it as "@".
+// {n1{x,y,d{u,v}}, p1}, String 66 (second bitmap block). Protocol lines may write it as "@".
 const HFixedSpec = impl.HFixedSpec
 
 func hxs(s string) string { return H([]byte(s)) }
@@ -35,7 +35,7 @@ func hxs(s string) string { return H([]byte(s)) }
 // strict subset of A's.
 func HMessages() (a, b string) {
 	msgA := "msg(s(" + hxs("0200") + "),f(2,s(" + hxs("5500") + ")),f(3,n(77)),f(55,c(kv(0a,s(" + hxs("AA") + ")),kv(0b,n(12))))," +
-		"f(60,c(kv(n1,c(kv(x,s(" + hxs("X1") + ")),kv(y,s(" + hxs("Y1") + ")))),kv(p1,s(" + hxs("P1") + "))))," +
+		"f(60,c(kv(n1,c(kv(x,s(" + hxs("X1") + ")),kv(y,s(" + hxs("Y1") + ")),kv(d,c(kv(u,s(" + hxs("U1") + ")),kv(v,s(" + hxs("V1") + ")))))),kv(p1,s(" + hxs("P1") + "))))," +
 		"f(66,s(" + hxs("zz") + ")))"
 	msgB := "msg(s(" + hxs("0210") + "),f(2,s(" + hxs("66") + ")),f(55,c(kv(0a,s(" + hxs("BB") + "))))," +
 		"f(60,c(kv(n1,c(kv(x,s(" + hxs("X2") + ")))))))"
@@ -56,7 +56,7 @@ func HAlphabet() []string {
 		"set:66:" + hxs("abc"),
 		"mar:55:c(kv(0a,s(" + hxs("m1") + ")))",
 		"mar:55:c(kv(0b,n(7)))",
-		"mar:60:c(kv(n1,c(kv(y,s(" + hxs("my") + ")))))",
+		"mar:60:c(kv(n1,c(kv(d,c(kv(u,s(" + hxs("mu") + ")))))))", // one leaf of the innermost composite
 		"jd:doc(f(3,n(42)),f(55,c(kv(0b,n(9)))))",
 		"upk:" + a,
 		"upk:" + b,
@@ -65,6 +65,26 @@ func HAlphabet() []string {
 		"ups:55:" + hxs("0a"),
 		"pack",
 		"clone",
+	}
+}
+
+// HNested: the letters of the nested sweep on composite 60 → n1 → d → {u, v}: populate the
+// whole chain, unset by path at every level of it, and re-populate only part of what lies
+// below the unset point (one leaf, an empty composite, JSON decode of the inner object).
+func HNested() []string {
+	a, _ := HMessages()
+	return []string{
+		"upk:" + a,
+		"mar:60:c(kv(n1,c(kv(x,s(" + hxs("nx") + ")),kv(d,c(kv(u,s(" + hxs("nu") + ")),kv(v,s(" + hxs("nv") + ")))))),kv(p1,s(" + hxs("np") + ")))",
+		"mar:60:c(kv(n1,c(kv(d,c(kv(v,s(" + hxs("pv") + ")))))))",
+		"mar:60:c(kv(n1,c(kv(d,c()))))",
+		"mar:60:c(kv(n1,c()))",
+		"jd:doc(f(60,c(kv(n1,c(kv(d,c(kv(u,s(" + hxs("ju") + ")))))))))",
+		"unf:60",
+		"ups:60:" + hxs("n1"),
+		"ups:60:" + hxs("n1.d"),
+		"ups:60:" + hxs("n1.d.u"),
+		"pack",
 	}
 }
 
@@ -278,6 +298,106 @@ func HRandomOps(g *FieldGen, spec *T, n int) []string {
 	return ops
 }
 
+// fullValue sets every subfield of a spec, recursively (primitives get generated values).
+func fullValue(g *FieldGen, spec *T) *T {
+	if spec.Name != "c" {
+		return g.Value(spec, false)
+	}
+	v := N("c")
+	for _, s := range spec.Kids[3:] {
+		v.Kids = append(v.Kids, N("kv", A(s.Kids[0].Name), fullValue(g, s.Kids[1])))
+	}
+	if len(v.Kids) == 0 {
+		v.Name = "c()"
+	}
+	return v
+}
+
+// wrapAlong builds the value that holds `inner` at the end of the tag path and nothing else.
+func wrapAlong(path []string, inner *T) *T {
+	for i := len(path) - 1; i >= 0; i-- {
+		inner = N("c", N("kv", A(path[i]), inner))
+	}
+	return inner
+}
+
+type nestedTarget struct {
+	path  []string // tags from the message field down to a composite that has a composite child
+	child *T       // one composite child of it: sub(tag, spec)
+}
+
+func nestedTargets(spec *T, path []string, out *[]nestedTarget) {
+	if spec.Name != "c" {
+		return
+	}
+	for _, s := range spec.Kids[3:] {
+		if s.Kids[1].Name != "c" {
+			continue
+		}
+		p := append(append([]string{}, path...), s.Kids[0].Name)
+		for _, cs := range s.Kids[1].Kids[3:] {
+			if cs.Kids[1].Name == "c" {
+				*out = append(*out, nestedTarget{p, cs})
+			}
+		}
+		nestedTargets(s.Kids[1], p, out)
+	}
+}
+
+// HNestedScenario: on a message field with composites nested three deep — populate the whole
+// field, unset by path a composite that has a composite child, then re-populate only part of
+// that child (one member, an empty composite, or by JSON). nil if the spec has no such chain.
+func HNestedScenario(g *FieldGen, spec *T) []string {
+	r := g.R
+	type cand struct {
+		id string
+		fs *T
+		t  nestedTarget
+	}
+	var cands []cand
+	for _, f := range spec.Kids[2:] {
+		var ts []nestedTarget
+		nestedTargets(f.Kids[1], nil, &ts)
+		for _, t := range ts {
+			cands = append(cands, cand{f.Kids[0].Name, f.Kids[1], t})
+		}
+	}
+	if len(cands) == 0 {
+		return nil
+	}
+	c := cands[r.Intn(len(cands))]
+	childTag, childSpec := c.t.child.Kids[0].Name, c.t.child.Kids[1]
+	ops := []string{fmt.Sprintf("mar:%s:%s", c.id, fullValue(g, c.fs).String())}
+	if r.Intn(3) == 0 {
+		ops = append(ops, "pack")
+	}
+	ops = append(ops, fmt.Sprintf("ups:%s:%s", c.id, H([]byte(strings.Join(c.t.path, ".")))))
+	// what is written below the unset point
+	var inner *T
+	members := childSpec.Kids[3:]
+	switch {
+	case len(members) == 0 || r.Intn(4) == 0:
+		inner = &T{Name: "c()"}
+	default:
+		m := members[r.Intn(len(members))]
+		mv := g.Value(m.Kids[1], false)
+		if m.Kids[1].Name == "c" && r.Bool() {
+			mv = &T{Name: "c()"}
+		}
+		inner = N("c", N("kv", A(m.Kids[0].Name), mv))
+	}
+	val := wrapAlong(append(append([]string{}, c.t.path...), childTag), inner)
+	if r.Intn(3) == 0 && asciiOnly(val) {
+		ops = append(ops, fmt.Sprintf("jd:doc(f(%s,%s))", c.id, val.String()))
+	} else {
+		ops = append(ops, fmt.Sprintf("mar:%s:%s", c.id, val.String()))
+	}
+	if r.Bool() {
+		ops = append(ops, "pack")
+	}
+	return ops
+}
+
 func ChannelH(t Tier, r *Rng, emit Emit) {
 	alpha := HAlphabet()
 	// 1. exhaustive sweeps: every sequence of length 1..4 (thorough: ..5), each observed after
@@ -297,8 +417,17 @@ func ChannelH(t Tier, r *Rng, emit Emit) {
 			emit("Hh @ " + hSeq(alpha, idx))
 		}
 	}
+	// 1b. nested sweep: every sequence of length 1..4 (thorough: ..5) over the letters that
+	// unset at every level of a three-level composite chain and re-populate below that point
+	nested := HNested()
+	for l := 1; l <= 4; l++ {
+		hAll(nested, l, func(s string) { emit("Hl @ " + s) })
+	}
+	if t.Thorough {
+		hAll(nested, 5, func(s string) { emit("Hh @ " + s) })
+	}
 	// 2. boundary stream
-	ext := append(append([]string{}, alpha...), HBoundary()...)
+	ext := append(append(append([]string{}, alpha...), HBoundary()...), nested...)
 	for _, b := range HBoundary() { // every boundary letter after every letter, then a pack
 		for _, a := range alpha {
 			emit("H @ " + a + ";" + b + ";pack;desc")
@@ -317,6 +446,20 @@ func ChannelH(t Tier, r *Rng, emit Emit) {
 	for i := 0; i < t.N(400, 6000); i++ {
 		spec := g.MsgSpec(1 + r.Intn(3))
 		ops := HRandomOps(g, spec, 4+r.Intn(t.N(10, 20)))
+		emit("H " + spec.String() + " " + strings.Join(ops, ";"))
+	}
+	// 4. generated specs with composites nested three deep: unset by path at a middle level,
+	// then partial re-population below the unset point, with random ops around
+	found := 0
+	for tries := 0; found < t.N(150, 3000) && tries < t.N(6000, 120000); tries++ {
+		spec := g.MsgSpec(3 + r.Intn(2))
+		sc := HNestedScenario(g, spec)
+		if sc == nil {
+			continue
+		}
+		found++
+		ops := append(HRandomOps(g, spec, r.Intn(3)), sc...)
+		ops = append(ops, HRandomOps(g, spec, r.Intn(3))...)
 		emit("H " + spec.String() + " " + strings.Join(ops, ";"))
 	}
 }
